@@ -6,6 +6,7 @@ REGISTRY = {
     "C11": "c11_crash",
     "C12": "c12_resume",
     "C13": "c13_signal",
+    "C15": "c15_stopping",
     "C16": "c16_resampling",
     "C17": "c17_threshold",
 }
